@@ -229,7 +229,7 @@ fn run_dropped_before(how: u8, with_ctx: bool, regfile: usize) -> (Value, Vec<(S
     let blamed_tid = b.p.threads.last().unwrap().tid;
     let devs = devs_for(regfile, env.main_stack.1, env.text.0);
     let mut o = DumpOpts { blamed: Some(blamed_tid), ..Default::default() };
-    let (signo, code, addr) = (7u32, 0x4321i32, 0x7eee_beef_c000u64);
+    let (signo, code, addr) = (7u32, -6i32 /* SI_TKILL: codes of software-sent signals are negative */, 0x7eee_beef_c000u64);
     if with_ctx {
         o.crash = Some(CrashSpec { tid: blamed_tid, signo, code, addr, devs: devs.clone() });
     }
